@@ -152,6 +152,25 @@ pub fn on_call(comp: &str) -> Option<String> {
     })
 }
 
+/// Arms a one-off fault in the middle of a scenario: the `delta`-th call of `comp` from now on fails
+/// (once); everything before and after it is served normally.
+pub fn arm(comp: &str, delta: u64, kind: &str) {
+    POLICY.with(|p| {
+        let mut p = p.borrow_mut();
+        let n = p.counts.get(comp).copied().unwrap_or(0);
+        p.fault = Some(Fault { comp: comp.to_string(), k: n + delta, kind: kind.to_string() });
+        p.fired = false;
+    })
+}
+/// Withdraws a fault that has not fired.
+pub fn disarm() {
+    POLICY.with(|p| {
+        let mut p = p.borrow_mut();
+        p.fault = None;
+        p.fired = false;
+    })
+}
+
 pub fn io_error(kind: &str) -> io::Error {
     io::Error::new(kind_of(kind), format!("injected fault: {}", kind))
 }
